@@ -152,6 +152,9 @@ func c18history(v *verifrt.T, script []c18step) {
 		conns[i].guid = conns[i].luid.Unique(svc.ID(), "emitter")
 	}
 	w := 2
+	if !v.Symbolic() {
+		socks[w].slowFirst = 20 * time.Millisecond // a slow watcher: concurrent senders would overtake one another
+	}
 	// reference state
 	held := [2]map[string]bool{{}, {}} // client -> channel -> subscribed
 	watching := ""                     // channel the watcher asked changes for ("" = none)
@@ -274,7 +277,7 @@ func c18history(v *verifrt.T, script []c18step) {
 		}
 		verifrt.RunGoroutines() // the notifier drains its queue between client requests
 		if !v.Symbolic() {
-			time.Sleep(30 * time.Millisecond) // natively the poller is a real goroutine
+			time.Sleep(60 * time.Millisecond) // natively the poller is a real goroutine
 		}
 		// notifications received by the watcher so far
 		var got []c18note
